@@ -50,11 +50,13 @@ func (s *SplitStrategy) Compute(snapshots <-chan *asset.Snapshot) <-chan Action 
 		for {
 			buyAction, ok := <-buyActions
 			if !ok {
+				go helper.Drain(sellActions)
 				break
 			}
 
 			sellAction, ok := <-sellActions
 			if !ok {
+				go helper.Drain(buyActions)
 				break
 			}
 
